@@ -58,7 +58,17 @@ impl RawParameters {
         let mut globals = self.globals.clone();
         if definition.is_resource_name() {
             globals.remove("_name");
-            globals.extend(definition.split_into_parameters());
+            // Macro arguments given as '$name', '$name(default)' or '(default)'
+            // refer to the scope of the caller: resolve them here, not when some
+            // operator deep inside the macro body eventually looks them up
+            let args = definition.split_into_parameters();
+            for (key, value) in &args {
+                match parsed_parameters::chase(&self.globals, &args, key) {
+                    Ok(Some(resolved)) => globals.insert(key.clone(), resolved),
+                    // Not resolvable here: hand it down as given, so that any use is an error
+                    _ => globals.insert(key.clone(), value.clone()),
+                };
+            }
             globals.remove("inv");
             globals.remove("omit_fwd");
             globals.remove("omit_inv");
